@@ -280,7 +280,7 @@ func run(c Case) vt.Verdict {
 func TestProp(t *testing.T) {
 	vt.Main(t, vt.Spec[Case]{
 		ID:           "C07",
-		Rule:         "fault enumeration by generation, two case shapes. (Q, 3 of 4) one scripted call on 1-7 servers with a failing subset of any size, per failing node a kind from {never started, stopped before the call, stopped at a generated position of the script (before the request is answered, while its handler is held, after its reply), handler status error with any of the 16 non-OK codes and a generated message, non-status Go error, reply together with an error}, thresholds 1..n+1 and value-dependent scripts, sync and async; oracle: success when the healthy replies satisfy the script, completion once every node answered or failed, exactly one 'node <id>:' line per failing node and none for healthy ones, handler code and message intact, connection failures of unavailable type, no reply entry for a failing node. (P, 1 of 4) a concurrent program: 2-5 threads issue 3-14 two-way calls of 12 kinds with contexts that never end on overlapping configurations, every call needs all its nodes (a third of the correctable callers wait in Watch alone, for a level that is never reached), per-node functions spend 0.1-2 ms per node (so calls hand over their requests in another order than they drew their message ids), handlers on a generated set of victim servers are held, then all victims are stopped while calls wait, in a quarter of the programs one injected failure of a single stream write (client stream interceptor); oracle: every call is completed (none left waiting), no call succeeds without its victims, every Incomplete error lists each victim exactly once and no healthy node (with an injected write failure a healthy node may be listed, at most once per call). Non-trivial = (Q) at least one failing node and (a stop after the handler was entered, or two different failure kinds, or a handler error); (P) at least one call was waiting when the servers were stopped (measured)",
+		Rule:         "fault enumeration by generation, two case shapes. (Q, 3 of 4) one scripted call on 1-7 servers with a failing subset of any size, per failing node a kind from {never started, stopped before the call, stopped at a generated position of the script (before the request is answered, while its handler is held, after its reply), handler status error with any of the 16 non-OK codes and a generated message, non-status Go error, reply together with an error}, thresholds 1..n+1 and value-dependent scripts, sync and async; oracle: success when the healthy replies satisfy the script, completion once every node answered or failed, exactly one 'node <id>:' line per failing node and none for healthy ones, handler code and message intact, connection failures of unavailable type, no reply entry for a failing node. (P, 1 of 4) a concurrent program: 2-5 threads issue 3-14 two-way calls of 12 kinds with contexts that never end on overlapping configurations, every call needs all its nodes (a third of the correctable callers wait in Watch alone, for a level that is never reached), per-node functions spend 0.1-2 ms per node (so calls hand over their requests in another order than they drew their message ids), handlers on a generated set of victim servers are held, then all victims are stopped while calls wait, in a quarter of the programs one injected failure of a single stream write (client stream interceptor); oracle: every call is completed (none left waiting), no call succeeds without its victims, every Incomplete error lists each victim exactly once and no healthy node (with an injected write failure a healthy node may be listed, at most once per call). Non-trivial = (Q) at least one failing node and (a stop after the handler was entered, or two different failure kinds, or a handler error); (P) at least one call was waiting when the servers were stopped (measured); in a sixth of the scripted cases with stops the nodes are partitioned instead (established connections cut and new connection attempts left unanswered, 30 s back-off; such a case has no plain stops)",
 		Gen:          gen,
 		Run:          run,
 		TrackCurrent: true,
